@@ -31,6 +31,9 @@ type SentInfo struct {
 	NAFlags byte
 	OptTLLA []byte
 	OptSLLA []byte
+	// router advertisement: every prefix information option ("prefix/len") and every RDNSS server, in order
+	RAPrefixes []string
+	RARDNSS    []string
 	// DHCP
 	DHCP     *DHCPInfo
 	UDPBody  []byte
@@ -282,6 +285,16 @@ func DecodeSent(f []byte, hostMAC []byte) SentInfo {
 						bad("router advertisement: %s", e)
 					}
 					s.OptSLLA = m[1]
+					for b := o; len(b) >= 2 && int(b[1])*8 <= len(b) && b[1] != 0; b = b[int(b[1])*8:] {
+						switch {
+						case b[0] == 3 && b[1] == 4:
+							s.RAPrefixes = append(s.RAPrefixes, fmt.Sprintf("%s/%d", netip.AddrFrom16([16]byte(b[16:32])), b[2]))
+						case b[0] == 25 && b[1] >= 3:
+							for a := b[8 : int(b[1])*8]; len(a) >= 16; a = a[16:] {
+								s.RARDNSS = append(s.RARDNSS, netip.AddrFrom16([16]byte(a[:16])).String())
+							}
+						}
+					}
 				}
 			case 135:
 				s.Kind = "ns"
